@@ -145,6 +145,18 @@ def build_mask(H, W, spec, wrap):
         z = rng.standard_normal((H, W))
         z = ndimage.gaussian_filter(z, spec["smooth"], mode="wrap" if wrap else "nearest")
         m = z >= np.quantile(z, 1.0 - spec["fill"])
+    elif t == "band":
+        # valid = everything outside a removed band of columns and/or rows that does not touch the
+        # border: the two (or four) remaining strips meet only across the periodic seam
+        m = np.ones((H, W), dtype=bool)
+        if spec.get("cols"):
+            c0, w = spec["cols"]
+            m[:, c0 : c0 + w] = False
+        if spec.get("rows"):
+            r0, h = spec["rows"]
+            m[r0 : r0 + h, :] = False
+        for r, c in spec.get("holes", []):
+            m[r % H, c % W] = False
     elif t == "bits":
         m = np.zeros((H, W), dtype=bool)
         for i, row in enumerate(spec["rows"][:H]):
